@@ -12,7 +12,9 @@
        FingerprintDatabase(fp_type=type(fprints[0]), level=level) + add_fingerprints + savez, only if len(fprints) > 0;
      * results are consumed in *completion order*: `run` takes that order as its argument (any permutation of the inputs);
      * the output directory is a finite map (level_dir, file) -> content; workers act on it one after the other in
-       completion order (adequate for concurrent workers when no two inputs share an output path);
+       completion order (adequate for concurrent workers when no two inputs share an output path); a molecule is skipped
+       when all its files exist and overwrite is off, and since repair e0cef96 a molecule that is recomputed writes only
+       those of its level files that do not exist yet (unless overwrite);
      * an interrupted run: every input may have performed any prefix of its own writes (run_partial), of which a crash
        after the first k writes of a serial run is a special case (run_interrupted);
      * generate_conformers(save=True): the same rule with a single output file (cg_step).
@@ -31,15 +33,21 @@ Section Batch.
   Definition job_skips (overwrite : bool) (fs : fsmap content) (j : job) : bool :=
     forallb (fs_isfile fs) (j_files j) && negb overwrite.
 
+  (* a planned write is carried out unless its file exists and overwrite is off (fs_keep:
+     `if os.path.isfile(filenames[i]) and not overwrite: continue`, repair e0cef96; for a single-file job that is not
+     skipped the test is vacuous) *)
+  Definition job_writes (overwrite : bool) (fs : fsmap content) (j : job) : list (path * content) :=
+    if job_skips overwrite fs j then [] else filter (fs_keep overwrite fs) (j_plan j).
+
   Definition run_job (overwrite : bool) (fs : fsmap content) (j : job) : fsmap content :=
-    if job_skips overwrite fs j then fs else fs_writes fs (j_plan j).
+    fs_writes fs (job_writes overwrite fs j).
 
   Definition run_jobs (overwrite : bool) (fs : fsmap content) (js : list job) : fsmap content :=
     fold_left (run_job overwrite) js fs.
 
   (* the paths written, in order *)
   Definition job_log (overwrite : bool) (fs : fsmap content) (j : job) : list path :=
-    if job_skips overwrite fs j then [] else map fst (j_plan j).
+    map fst (job_writes overwrite fs j).
 
   Fixpoint run_log (overwrite : bool) (fs : fsmap content) (js : list job) : list path :=
     match js with
@@ -49,7 +57,7 @@ Section Batch.
 
   (* a job interrupted after k of its writes *)
   Definition partial_job (overwrite : bool) (fs : fsmap content) (jk : job * nat) : fsmap content :=
-    if job_skips overwrite fs (fst jk) then fs else fs_writes fs (firstn (snd jk) (j_plan (fst jk))).
+    fs_writes fs (firstn (snd jk) (job_writes overwrite fs (fst jk))).
 
   Definition run_partial (overwrite : bool) (fs : fsmap content) (jks : list (job * nat)) : fsmap content :=
     fold_left (partial_job overwrite) jks fs.
@@ -59,7 +67,7 @@ Section Batch.
     match js with
     | [] => fs
     | j :: t =>
-      let ws := if job_skips overwrite fs j then [] else j_plan j in
+      let ws := job_writes overwrite fs j in
       if (length ws <=? k)%nat then run_interrupted overwrite (fs_writes fs ws) t (k - length ws)
       else fs_writes fs (firstn k ws)
     end.
@@ -75,7 +83,8 @@ Section Batch.
   Definition mol_files (cfg : config) (nm : string) : result (list path) :=
     filenames (c_base cfg) (c_level cfg) (c_all_iters cfg) nm (c_ext cfg).
 
-  (* what the save block writes for the dict d (Model/Pipeline.v: save_dict), as a list of writes *)
+  (* what the save block would write for the dict d (Model/Pipeline.v: save_dict) when no file exists, as a list of
+     writes; in the all_iters branch the writes whose file exists are left out unless overwrite (mol_step) *)
   Definition save_plan (files : list path) (level : Z) (all_iters : bool) (d : fdict) : result (list (path * content)) :=
     if single_level level all_iters then
       match dict_max_key d, files with
@@ -104,7 +113,9 @@ Section Batch.
           else match loop with
                | Raises _ => (WDict [], fs)
                | Ok d => match save_plan files (c_level cfg) (c_all_iters cfg) d with
-                         | Ok ws => (WDict d, fs_writes fs ws)
+                         | Ok ws =>
+                           (WDict d, fs_writes fs (if single_level (c_level cfg) (c_all_iters cfg) then ws
+                                                   else filter (fs_keep (c_overwrite cfg) fs) ws))
                          | Raises _ => (WFalse, fs)
                          end
                end
@@ -192,6 +203,7 @@ Arguments mkjob {content}.
 Arguments j_files {content}.
 Arguments j_plan {content}.
 Arguments job_skips {content}.
+Arguments job_writes {content}.
 Arguments run_job {content}.
 Arguments run_jobs {content}.
 Arguments job_log {content}.
